@@ -709,6 +709,35 @@ func kdcLookup(c *engine.Ctx, evals *int64) {
 			}
 		}
 	}
+	// realms whose configured name is not upper case: looked up as written
+	for _, name := range []string{"lowercase.org", "Mixed.Example.Com", "x", "UPPER.COM"} {
+		text := "[libdefaults]\n default_realm = " + name + "\n[realms]\n " + name + " = {\n  kdc = k1.example.com\n  kdc = k2.example.com:88\n  admin_server = a1.example.com\n }\n"
+		cfgn, err, pn := load(text)
+		if err != nil || pn != "" {
+			engine.FailValid("config.NewFromString(valid KDC lookup configuration)", fmt.Errorf("%v %s", err, pn))
+		}
+		for _, tcp := range []bool{false, true} {
+			*evals++
+			vrand.Script(nil)
+			rec := map[string]interface{}{"realm_as_configured": name, "tcp": tcp}
+			var cnt int
+			var m map[int]string
+			var gerr error
+			if pn := safe(func() { cnt, m, gerr = cfgn.GetKDCs(name, tcp) }); pn != "" || gerr != nil {
+				c.Violate("kdcs", "getkdcs:error:realm-name-not-upper-case", map[string]interface{}{"panic": pn, "err": fmt.Sprint(gerr)}, rec)
+				continue
+			}
+			if d := permOf(cnt, m, []string{"k1.example.com:88", "k2.example.com:88"}); d != "" {
+				c.Violate("kdcs", "getkdcs:"+d+":realm-name-not-upper-case", map[string]interface{}{"count": cnt, "map": m}, rec)
+				continue
+			}
+			if cnt, m, gerr = cfgn.GetKpasswdServers(name, tcp); gerr != nil || permOf(cnt, m, []string{"a1.example.com:464"}) != "" {
+				c.Violate("kdcs", "getkpasswd:error:realm-name-not-upper-case", map[string]interface{}{"err": fmt.Sprint(gerr), "map": m}, rec)
+				continue
+			}
+			c.Distinct("kdcs/realm-name/" + name)
+		}
+	}
 	// unknown realm: an error, not a panic
 	cfg, _, _ := load("[realms]\n A.COM = {\n  kdc = a\n }\n")
 	if pn := safe(func() {
